@@ -831,12 +831,21 @@ def run(ctx: Any, prog: Program) -> None:
     getents = [c for c in ast.walk(pb) if isinstance(c, ast.Call) and dotted(c.func) == 'self.get_ent']
     # the rewrite of `<ent>.bases`: every name still held as a string is turned into the definition by get_ent (which parses the owning block)
     base_stores = [n for n in ast.walk(pb) if isinstance(n, ast.Assign) and isinstance(n.targets[0], ast.Attribute) and n.targets[0].attr == 'bases' and isinstance(n.value, (ast.ListComp, ast.List, ast.Call))]
-    ctx.shape('C16.Q5', len(base_stores) == 1 and isinstance(base_stores[0].value, ast.ListComp), db, pb, '_parse_block rewrites the bases list with one comprehension', func='EngineDB._parse_block', text='bases resolved through get_ent')
+    # two spellings of the rewrite: `ent.bases = [<resolve base> for base in ent.bases]`, or a loop over `ent.bases` filling a list that is
+    # assigned to `ent.bases` afterwards
+    regions: List[Tuple[ast.AST, ast.AST, ast.AST]] = []         # (anchor, where the resolving happens, the variable holding one base)
     for bs_ in base_stores:
-        if not isinstance(bs_.value, ast.ListComp):
-            continue
-        var_ = bs_.value.generators[0].target
-        resolvers = [c for c in ast.walk(bs_.value.elt) if isinstance(c, ast.Call) and isinstance(c.func, ast.Attribute) and dotted(c.func.value) == 'self' and c.args and dotted(c.args[0]) == dotted(var_)]
+        if isinstance(bs_.value, ast.ListComp):
+            regions.append((bs_, bs_.value.elt, bs_.value.generators[0].target))
+    name_stores = [n for n in ast.walk(pb) if isinstance(n, ast.Assign) and isinstance(n.targets[0], ast.Attribute) and n.targets[0].attr == 'bases' and isinstance(n.value, ast.Name)]
+    for lp_ in [n for n in ast.walk(pb) if isinstance(n, ast.For) and isinstance(n.iter, ast.Attribute) and n.iter.attr == 'bases']:
+        fills = {c.func.value.id for b in lp_.body for c in ast.walk(b) if isinstance(c, ast.Call) and isinstance(c.func, ast.Attribute) and c.func.attr == 'append' and isinstance(c.func.value, ast.Name)}
+        if any(ns.value.id in fills for ns in name_stores):
+            wrap = ast.Module(body=lp_.body, type_ignores=[])
+            regions.append((lp_, wrap, lp_.target))
+    ctx.shape('C16.Q5', len(regions) == 1, db, pb, f'_parse_block rewrites the bases list in one place (comprehension or loop); found {len(regions)}', func='EngineDB._parse_block', text='bases resolved through get_ent')
+    for bs_, where_, var_ in regions:
+        resolvers = [c for c in ast.walk(where_) if isinstance(c, ast.Call) and isinstance(c.func, ast.Attribute) and dotted(c.func.value) == 'self' and c.args and dotted(c.args[0]) == dotted(var_)]
         ctx.shape('C16.Q5', bool(resolvers), db, bs_, 'a self.<method>(<base>) call resolves the string entries', func='EngineDB._parse_block', text='bases resolved through get_ent')
         for c in resolvers:
             ctx.check('C16.Q5', c.func.attr == 'get_ent', db, c, f'bases of a lazily parsed block are resolved with self.{c.func.attr}() instead of get_ent(): a base living in a block that is not parsed yet has to be parsed, '
